@@ -15,6 +15,7 @@ import traceback
 import tempfile
 import shutil
 import hashlib
+import signal
 
 VERIF = os.path.dirname(os.path.dirname(os.path.abspath(__file__)))
 NPROC = int(os.environ.get('VERIF_NPROC', '16'))
@@ -40,6 +41,14 @@ def _jsonable(x):
     if isinstance(x, (str, int, float, bool)) or x is None:
         return x
     return repr(x)
+
+
+class HardTimeout(BaseException):
+    pass
+
+
+def _alarm(signum, frame):
+    raise HardTimeout('configuration exceeded its hard wall-clock limit')
 
 
 class FuncTrace:
@@ -79,6 +88,11 @@ def worker(prop, tier, idxs, outpath, seed):
                 sys.setprofile(tracer)
             budget = getattr(H, 'CFG_BUDGET_S', {}).get(tier, 150 if tier == 'quick' else 900)
             core.C.deadline = time.time() + budget
+            core.C.skip_unknown = bool(getattr(H, 'SKIP_UNKNOWN_BRANCHES', False))
+            core.C.feas_timeout = getattr(H, 'FEAS_TIMEOUT_MS', 10000)
+            fu0 = core.C.stats.get('feas_unknown', 0)
+            signal.signal(signal.SIGALRM, _alarm)
+            signal.alarm(int(budget * 2) + 30)      # hard stop for python-level loops (solver calls stop at the deadline)
             try:
                 res = run.run_symbolic(case, cfg, max_paths=max_paths, seed=seed, timeout_ms=timeout_ms)
             except BaseException as e:
@@ -86,6 +100,7 @@ def worker(prop, tier, idxs, outpath, seed):
                            notes=[], samples=[], unsupported=[f'harness error {type(e).__name__}: {e} '
                                                               + traceback.format_exc()[-600:]])
             finally:
+                signal.alarm(0)
                 core.C.deadline = None
                 if tracer:
                     sys.setprofile(None)
@@ -113,6 +128,7 @@ def worker(prop, tier, idxs, outpath, seed):
             res['queries'] = core.C.stats['queries'] - q0
             res['solver_s'] = core.C.stats['solver_s'] - s0
             res['functions'] = sorted(tracer.seen) if tracer else []
+            res['feas_unknown'] = core.C.stats.get('feas_unknown', 0) - fu0
             f.write(json.dumps(_jsonable(res)) + '\n')
             f.flush()
             if os.environ.get('VERIF_PROGRESS') and (res['wall_s'] > 5 or res['unknown'] or res['unsupported']):
@@ -176,7 +192,7 @@ def main(argv):
 def report(prop, tier, seed, H, cfgs, results, died, wall):
     known = [k for k in load_known() if k.get('property') == prop and k.get('status', 'open') == 'open']
     missing = [i for i in range(len(cfgs)) if i not in results]
-    tot = dict(paths=0, infeasible=0, obligations=0, discharged=0, unknown=0, queries=0, solver_s=0.0)
+    tot = dict(paths=0, infeasible=0, obligations=0, discharged=0, unknown=0, queries=0, solver_s=0.0, feas_unknown=0)
     unsupported = []
     violations = {}      # key -> first failure
     known_hits = {}
@@ -251,6 +267,10 @@ def report(prop, tier, seed, H, cfgs, results, died, wall):
             configurations=len(cfgs), paths=tot['paths'], paths_outside_domain=tot['infeasible'],
             obligations=tot['obligations'], discharged=tot['discharged'], solver_unknown=tot['unknown'],
             queries=tot['queries'], solver_s=round(tot['solver_s'], 2),
+            branch_feasibility_unknown=tot['feas_unknown'],
+            branch_policy=('branches whose feasibility z3 cannot decide are NOT explored (counted above)'
+                           if getattr(H, 'SKIP_UNKNOWN_BRANCHES', False) else
+                           'branches whose feasibility z3 cannot decide are explored anyway (sound: obligations on an infeasible path hold vacuously)'),
             counterexamples_replayed=sum(1 for r in results.values() for f in r['failures'] if f.get('replayed') is not None),
             counterexamples_not_reproduced=len(unreproduced),
             known_findings_hit=sorted(known_hits), per_case=per_case,
